@@ -3,8 +3,9 @@
 Tie to the code: K_heap (Heap._roundup) and G_heap (size normalisation, split point/test,
 arena length, doubling, alignment constant, bisect flavour) are regenerated from heap.py on
 every run and proved equal to the model's arithmetic; the real Heap (private instance, Arena
-replaced by a size-only stub) is run on malloc/free/deferred-free histories and every returned
-block, the arena list and the four free-list indexes are compared with the executable model
+replaced by a size-only stub) is run on malloc/free/deferred-free histories -- including frees issued
+by the same thread from inside a running malloc/free at any line under the lock, the way a finaliser
+run by the garbage collector does -- and every returned block, the arena list and the four free-list indexes are compared with the executable model
 inside Coq; independently the property itself (alignment, size, in-arena, disjointness,
 exact partition, coalescing, no needless arena) is judged on the implementation trace by
 `monitor` below, which knows nothing about the model."""
@@ -15,19 +16,24 @@ from vlib import core
 from vlib.core import cz, cnat, cbool, clist
 
 MANIFEST = dict(
-    text='Theorems (Coq, all op sequences of malloc/free/deferred free with valid frees, unbounded): '
+    text='Theorems (Coq, all op sequences of malloc/free/deferred free/free issued from inside a malloc or free '
+         'by the same thread (garbage collection), with valid frees, unbounded): '
          'Heap._roundup, the size normalisation, split test, arena length and doubling as translated from heap.py '
          'on every run equal the model; no modelled operation raises; every live block is 8-aligned, at least '
          'max(n,1) long, inside its arena and disjoint from every other live block; free and live blocks exactly '
          'partition every arena; the four free-list indexes describe the same set of free blocks; no two free blocks '
          'are adjacent; a new arena is mapped only when every free block is too short, and otherwise the block taken '
-         'is a best fit; a deferred free acts exactly like an immediate free at the next malloc/free. Correspondence of '
+         'is a best fit; a deferred free acts exactly like an immediate free at the next malloc/free; the lock created '
+         'by Heap.__init__ is not re-entrant and free() try-locks it (read from heap.py on every run), hence a free '
+         'issued from inside malloc/free by the same thread, at any point, is exactly a deferred free (and with a '
+         're-entrant lock coalescing would fail: refutation by computation). Correspondence of '
          'the real Heap (stub arenas; real mmap arenas with byte patterns in the thorough tier) with the model on '
          'random and adversarial histories, plus an independent monitor of the property on the implementation traces.',
     note='Trusted: Coq kernel, translate/pykernel.py + translate/kernels/heap.py, Lib/PyVal.v; stdlib bisect (modelled as '
          'first index with element >= x on a sorted list; sortedness is part of the proved invariant), dict/set/list as '
          'association lists; mmap and the page size being a power of two >= 8; the heap lock makes malloc/free atomic '
-         '(a free that finds the lock taken is the FreeDeferred op); GIL-atomic list.append/pop for the pending list; '
+         '(a free that finds the lock taken is the FreeDeferred op; that the thread holding it finds it taken too is '
+         'the extracted fact lock_reentrant = false plus threading.Lock semantics); GIL-atomic list.append/pop for the pending list; '
          'the post-fork re-initialisation in malloc is not modelled.',
     technique='Coq invariant proof over the faithful index-level model + translator-regenerated arithmetic kernels + '
               'differential correspondence + independent trace monitor',
@@ -145,6 +151,77 @@ def boundary_cases():
     return out
 
 
+def gen_nested_history(rng, pg, nops):
+    """random history in which many frees are issued by the same thread from inside a running malloc/free
+    (['M', n, t, k] / ['F', j, t, k], t = -1: before the pending list is drained, t >= 0: at the t-th line after);
+    small sizes, so that the block freed from inside is often a neighbour of the blocks being merged or split"""
+    ops = []
+    live = []
+    nm = 0
+    pfree = rng.choice([0.3, 0.45, 0.55])
+    unit = rng.choice([8, 8, 16, 24])
+
+    def size():
+        r = rng.random()
+        if r < 0.6:
+            return unit * rng.choice([1, 1, 1, 2, 3])
+        if r < 0.8:
+            return rng.choice([0, 1, 7, 9, 40, 64])
+        return size_choices(rng, pg)
+    for _ in range(nops):
+        r = rng.random()
+        pre = rng.random() < 0.08
+        if len(live) >= 2 and r < pfree * 0.55:
+            j = live.pop(rng.randrange(len(live)))
+            # the block freed from inside is most often a neighbour (in allocation order) of the outer one
+            near = [x for x in live if abs(x - j) <= 2]
+            k = rng.choice(near) if near and rng.random() < 0.7 else rng.choice(live)
+            live.remove(k)
+            ops.append(['F', j, -1 if pre else rng.randint(0, 31), k])
+        elif live and r < pfree:
+            k = live.pop(rng.randrange(len(live)))
+            ops.append([rng.choice(['f', 'f', 'd']), k])
+        elif live and r < pfree + 0.22:
+            k = live.pop(rng.randrange(len(live)))
+            ops.append(['M', size(), -1 if pre else rng.randint(0, 45), k]); live.append(nm); nm += 1
+        else:
+            ops.append(['m', size()]); live.append(nm); nm += 1
+    return ops
+
+
+def nested_boundary_cases():
+    """systematic: four blocks Y P X G filling the start of an arena, P freed; then a free / malloc during
+    which the same thread frees a neighbour at EVERY line under the lock (and before the drain), followed
+    by a request that fits exactly if and only if the freed space was merged"""
+    out = []
+    for pg, u in ((64, 16), (4096, 768)):
+        four = [['m', u], ['m', u], ['m', u], ['m', u], ['f', 1]]
+        for t in range(-1, 33):
+            # free(X) absorbs P; Y (left of P) / G (right of X) freed from inside
+            out.append(dict(pg=pg, size=pg, ops=four + [['F', 2, t, 0], ['m', 3 * u], ['m', 8]]))
+            out.append(dict(pg=pg, size=pg, ops=four + [['F', 2, t, 3], ['m', 3 * u], ['m', 8]]))
+            # free(Y) absorbs P on the right; X freed from inside
+            out.append(dict(pg=pg, size=pg, ops=four + [['F', 0, t, 2], ['m', 3 * u], ['m', 8]]))
+        for t in range(-1, 47):
+            # malloc(8) splits P; X (right of P) / Y (left of P) freed from inside; then the rest must be one extent
+            out.append(dict(pg=pg, size=pg, ops=four + [['M', 8, t, 2], ['m', 2 * u - 8], ['m', 8]]))
+            out.append(dict(pg=pg, size=pg, ops=four + [['M', 8, t, 0], ['f', 4], ['m', 2 * u], ['m', 8]]))
+            # exact fit (no split) and a new arena, with a free from inside
+            out.append(dict(pg=pg, size=pg, ops=four + [['M', u, t, 2], ['m', u], ['m', 8]]))
+            out.append(dict(pg=pg, size=pg, ops=four + [['M', 2 * pg, t, 0], ['m', 2 * u], ['m', 8]]))
+    return out
+
+
+def gen_nested_cases(rng, n):
+    cases = []
+    for _ in range(n):
+        pg = rng.choice([4096, 64, 64, 32, 8])
+        size = rng.choice([pg, pg, 1, 2 * pg])
+        nops = rng.choice([6, 12, 20, 30, 45, 60])
+        cases.append(dict(pg=pg, size=size, ops=gen_nested_history(rng, pg, nops)))
+    return cases + nested_boundary_cases()
+
+
 # --------------------------------------------------------------------- rendering
 def cblock(b):
     return '(%s, %s, %s)' % (cz(b[0]), cz(b[1]), cz(b[2]))
@@ -161,10 +238,27 @@ def cop(o):
         return '(CFree %s)' % cnat(o[1])
     if o[0] == 'd':
         return '(CFreeDeferred %s)' % cnat(o[1])
+    if o[0] == 'M':
+        return '(CMallocRe %s %s %s)' % (cz(o[1]), cbool(o[2] < 0), cnat(o[3]))
+    if o[0] == 'F':
+        return '(CFreeRe %s %s %s)' % (cnat(o[1]), cbool(o[2] < 0), cnat(o[3]))
     return '(CMallocGC %s %s)' % (cz(o[1]), cnat(o[2]))
 
 
+def effective_ops(c, out):
+    """the ops as they were really performed: a nested free whose point was never reached
+    (aux.fired = 0) did not happen, the op is then a plain malloc / free"""
+    aux = out.get('aux') or []
+    ops = []
+    for j, o in enumerate(c['ops']):
+        if o[0] in ('M', 'F') and j < len(aux) and not aux[j]['fired']:
+            o = ['m', o[1]] if o[0] == 'M' else ['f', o[1]]
+        ops.append(o)
+    return ops
+
+
 def to_coq(c, out):
+    c = dict(c, ops=effective_ops(c, out))
     obs = clist(out['obs'], lambda o: '(%s, %s, %s, %s)' % (cbool(o[0]), cblock(o[1]), cz(o[2]), cz(o[3])))
     s = out['snap']
     snap = '(mk_snap %s %s %s %s %s %s %s %s)' % (
@@ -200,35 +294,54 @@ def gaps(arenas, blocks):
 
 
 def monitor(c, out):
-    """returns None or (signature, text).  Judges the implementation trace only."""
+    """returns None or (signature, text).  Judges the implementation trace only.
+
+    live  : blocks handed out whose free() has not been called;
+    limbo : blocks whose free() was called while the lock was held -- by another thread ('d') or by the calling
+            thread itself, from inside malloc/free ('g', 'M', 'F': a finaliser run by the garbage collector) --
+            and that wait in the pending list: freed for their owner, but they still occupy their place.
+    The next malloc/free must apply them: from then on the monitor counts their space as free.  Whether the free
+    issued from inside an op was queued or applied on the spot is read from the implementation's pending list
+    after that op (aux); the property allows both, it allows neither to break the partition, the coalescing,
+    the indexes or the arena economy."""
     arenas_final = out['snap']['arenas']
-    live = {}           # malloc number -> block   (blocks handed out and not yet *really* freed)
-    pending = []
+    aux = out.get('aux')
+    ops = effective_ops(c, out)
+    live = {}           # malloc number -> block
+    limbo = {}          # malloc number -> block
+    invalid = False     # a block was freed that was not live: nothing can be judged after that
     na = 0
     nm = 0
-    for j, (op, ob) in enumerate(zip(c['ops'], out['obs'])):
+    for j, (op, ob) in enumerate(zip(ops, out['obs'])):
         err = ob[0]
-        valid_free = op[0] in ('f', 'd') and op[1] in live and op[1] not in pending
-        if op[0] == 'd':
+        ax = aux[j] if aux and j < len(aux) else None
+        kind = op[0]
+        if kind == 'd':
             if err:
                 return ('C14:valid-op-raised', 'deferred free raised %s at op %d' % (ob[4], j))
-            pending.append(op[1])
+            if op[1] in live:
+                limbo[op[1]] = live.pop(op[1])
+            else:
+                invalid = True
             continue
-        # malloc and free first apply the pending frees
-        pend_ok = all(k in live for k in pending) and len(set(pending)) == len(pending)
+        victim = op[2] if kind == 'g' else op[3] if kind in ('M', 'F') else None
+        victim_ok = victim is None or (victim in live and not (kind == 'F' and victim == op[1]))
         if err:
-            if op[0] == 'f' and valid_free and pend_ok:
-                return ('C14:valid-op-raised', 'free of a live block raised %s at op %d' % (ob[4], j))
-            if op[0] in ('m', 'g') and pend_ok and 0 <= op[1] < 2 ** 63 - 1:
-                return ('C14:valid-op-raised', 'malloc(%d) raised %s at op %d' % (op[1], ob[4], j))
-            return None         # an invalid op raised: nothing more to judge
-        if not pend_ok:
+            if invalid or not victim_ok:
+                return None     # an invalid op raised: nothing more to judge
+            if kind in ('f', 'F') and op[1] in live:
+                return ('C14:valid-op-raised', 'free of a live block raised %s at op %d%s'
+                        % (ob[4], j, nested_text(kind, victim, ax)))
+            if kind in ('m', 'g', 'M') and 0 <= op[1] < 2 ** 63 - 1:
+                return ('C14:valid-op-raised', 'malloc(%d) raised %s at op %d%s'
+                        % (op[1], ob[4], j, nested_text(kind, victim, ax)))
+            return None
+        if invalid:
             return None         # invalid history went unnoticed by the code: outside the property
-        for k in pending:
-            del live[k]
-        pending = []
-        if op[0] == 'f':
-            if not valid_free:
+        # malloc and free first apply the pending frees
+        limbo = {}
+        if kind in ('f', 'F'):
+            if op[1] not in live:
                 return None
             del live[op[1]]
         else:
@@ -247,34 +360,47 @@ def monitor(c, out):
             if not (0 <= b[0] < na_after and 0 <= b[1] < b[2] <= arenas_final[b[0]]):
                 return ('C14:outside-arena', 'malloc(%d) returned %s, arenas %s at op %d' % (n, b, arenas_final[:na_after], j))
             for k, x in live.items():
+                if k == victim:
+                    continue    # its owner freed it during this very malloc (whether it is still queued is judged below)
                 if x[0] == b[0] and x[1] < b[2] and b[1] < x[2]:
                     return ('C14:overlap', 'malloc(%d) returned %s overlapping live block %s (malloc #%d) at op %d' % (n, b, x, k, j))
             if na_after > na and any(g[2] - g[1] >= max(n, 1) for g in before):
-                return ('C14:needless-arena', 'malloc(%d) mapped a new arena although a free extent %s exists, at op %d'
-                        % (n, max(before, key=lambda g: g[2] - g[1]), j))
+                return ('C14:needless-arena', 'malloc(%d) mapped a new arena although a free extent %s exists, at op %d%s'
+                        % (n, max(before, key=lambda g: g[2] - g[1]), j, nested_text(kind, victim, ax)))
             na = na_after
             live[nm] = b
             nm += 1
-            if op[0] == 'g':
-                if op[2] not in live or op[2] == nm - 1:
-                    return None
-                pending.append(op[2])
+        if victim is not None:
+            if not victim_ok or victim not in live:
+                return None
+            if ax and ax.get('nested_err'):
+                return ('C14:valid-op-raised', 'free of live block #%d issued from inside op %d (%s) raised %s'
+                        % (victim, j, kind, ax['nested_err']))
+            vb = live.pop(victim)
+            if ax is None or list(vb) in [list(x) for x in ax['pending']]:
+                limbo[victim] = vb      # queued: applied by the next malloc/free
         # exact partition + coalescing: the number of free blocks is the number of maximal gaps
-        g = gaps(arenas_final[:na], list(live.values()))
+        g = gaps(arenas_final[:na], list(live.values()) + list(limbo.values()))
         if g is None:
-            return ('C14:overlap', 'live blocks overlap or leave their arena after op %d' % j)
+            return ('C14:overlap', 'live blocks overlap or leave their arena after op %d%s' % (j, nested_text(kind, victim, ax)))
         if len(g) != ob[3]:
-            return ('C14:free-list-not-the-gaps', 'after op %d there are %d free blocks but %d maximal free extents'
-                    % (j, ob[3], len(g)))
+            return ('C14:free-list-not-the-gaps', 'after op %d there are %d free blocks but %d maximal free extents%s'
+                    % (j, ob[3], len(g), nested_text(kind, victim, ax)))
+        if ax is not None and sorted(map(tuple, ax['pending'])) != sorted(map(tuple, limbo.values())):
+            return ('C14:pending-list-wrong', 'after op %d the pending list is %s, the frees not yet applied are %s'
+                    % (j, ax['pending'], sorted(limbo.values())))
     if out['obs'] and out['obs'][-1][0]:
         return None
     if len(out['obs']) != len(c['ops']):
         return ('C14:valid-op-raised', 'driver stopped early')
+    if invalid:
+        return None
     # final state: the free lists are exactly the maximal gaps, and the four indexes agree
     s = out['snap']
     g = gaps(s['arenas'], s['alloc'])
-    if g is None or sorted(map(tuple, s['alloc'])) != sorted(map(tuple, live.values())):
-        return ('C14:live-set-wrong', '_allocated_blocks %s, handed out and not freed %s' % (s['alloc'], sorted(live.values())))
+    held = sorted(list(live.values()) + list(limbo.values()))
+    if g is None or sorted(map(tuple, s['alloc'])) != sorted(map(tuple, held)):
+        return ('C14:live-set-wrong', '_allocated_blocks %s, handed out and not freed %s' % (s['alloc'], held))
     free = sorted(tuple(b) for _, seq in s['l2s'] for b in seq)
     if free != sorted(g):
         return ('C14:free-list-not-the-gaps', 'free blocks %s, maximal free extents %s' % (free, sorted(g)))
@@ -288,15 +414,24 @@ def monitor(c, out):
     return None
 
 
+def nested_text(kind, victim, ax):
+    if victim is None:
+        return ''
+    return ' (free of block #%d issued by the same thread from inside this %s%s)' % (
+        victim, 'free' if kind == 'F' else 'malloc',
+        '' if not ax else ', it was %s' % ('queued' if ax['pending'] else 'not queued'))
+
+
 # --------------------------------------------------------------------- shrinking a failing history
 def drop_op(ops, i):
-    """ops without op i; malloc numbers are renumbered, ops that referred to a removed malloc go too"""
+    """ops without op i; malloc numbers are renumbered, ops that referred to a removed malloc go too
+    (a nested free of a removed block goes, its outer op stays)"""
     gone = set()
     out = []
     nm = 0
     ren = {}
     for j, o in enumerate(ops):
-        is_m = o[0] in ('m', 'g')
+        is_m = o[0] in ('m', 'g', 'M')
         if j == i:
             if is_m:
                 gone.add(nm)
@@ -311,10 +446,24 @@ def drop_op(ops, i):
                 out.append(['m', o[1]])
             else:
                 out.append(['g', o[1], ren[o[2]]])
+        elif o[0] == 'M':
+            if o[3] in gone:
+                out.append(['m', o[1]])
+            else:
+                out.append(['M', o[1], o[2], ren[o[3]]])
+        elif o[0] == 'F':
+            if o[1] in gone and o[3] in gone:
+                continue
+            if o[1] in gone:
+                out.append(['f', ren[o[3]]])
+            elif o[3] in gone:
+                out.append(['f', ren[o[1]]])
+            else:
+                out.append(['F', ren[o[1]], o[2], ren[o[3]]])
         else:
             out.append(list(o))
         if is_m:
-            ren[nm] = sum(1 for x in out if x[0] in ('m', 'g')) - 1
+            ren[nm] = sum(1 for x in out if x[0] in ('m', 'g', 'M')) - 1
             nm += 1
     return out
 
@@ -384,31 +533,52 @@ def judge(res, cases, outs, tag):
     return alarmed
 
 
-def correspond(res, n, long_cases, long_ops):
+def correspond(res, n, long_cases, long_ops, n_nested):
     rng = random.Random(res.seed * 6151 + 14)
     corpus = json.load(open(core.VERIF + '/corpus/C14.json'))
     cases = corpus + gen_cases(rng, n, long_cases, long_ops)
+    # frees issued from inside malloc/free by the same thread: their own generator (the histories above
+    # are the same as before for a given seed)
+    cases += gen_nested_cases(random.Random(res.seed * 7919 + 1414), n_nested)
     outs = core.run_driver('heap_driver.py', cases)
     judge(res, cases, outs, '')
     cases = [c for c, o in zip(cases, outs) if not o.get('skipped')]
     outs = [o for o in outs if not o.get('skipped')]
     hist = {}
     lens = {}
+    nested = dict(in_malloc_before_drain=0, in_malloc_after_drain=0, in_free_before_drain=0, in_free_after_drain=0,
+                  point_not_reached=0)
+    lines = {}
+    for c, o in zip(cases, outs):
+        for j, (x, y) in enumerate(zip(c['ops'], effective_ops(c, o))):
+            if x[0] in ('M', 'F') and j < len(o.get('aux') or []):
+                if y[0] != x[0]:
+                    nested['point_not_reached'] += 1
+                else:
+                    nested['in_%s_%s_drain' % ('malloc' if x[0] == 'M' else 'free', 'before' if x[2] < 0 else 'after')] += 1
+                    if x[2] >= 0:
+                        lines[(x[0], x[2])] = lines.get((x[0], x[2]), 0) + 1
     for c in cases:
         for o in c['ops']:
             hist[o[0]] = hist.get(o[0], 0) + 1
         b = min(len(c['ops']) // 20 * 20, 100)
         lens['%d+' % b] = lens.get('%d+' % b, 0) + 1
     nontrivial = {json.dumps(c, sort_keys=True) for c, o in zip(cases, outs)
-                  if len(o['snap']['arenas']) >= 1 and any(x[0] in 'fdg' for x in c['ops'])
-                  and sum(1 for x in c['ops'] if x[0] in 'mg') >= 3}
+                  if len(o['snap']['arenas']) >= 1 and any(x[0] in 'fdgMF' for x in c['ops'])
+                  and sum(1 for x in c['ops'] if x[0] in 'mgM') >= 3}
     res.add_cov(evaluations=len(cases), distinct=len(nontrivial), traces=len(cases),
                 samples=[dict(case=cases[min(len(corpus), len(cases) - 1)], impl=outs[min(len(corpus), len(cases) - 1)]['obs'])],
-                rule='random/LIFO/FIFO/checkerboard/exact-fit histories of malloc, free, deferred free and '
-                     'free-during-malloc, page sizes 8/32/64/4096, plus enumerated boundary cases; non-trivial = '
-                     'at least three mallocs and one free; distinct by canonical JSON',
+                rule='random/LIFO/FIFO/checkerboard/exact-fit histories of malloc, free, deferred free (lock held by '
+                     'another thread) and free-during-malloc, page sizes 8/32/64/4096, plus enumerated boundary cases; '
+                     'plus histories with frees issued by the same thread from inside malloc/free (on entry to '
+                     '_free_pending_blocks, or at the t-th heap.py line after it returned, every t enumerated on '
+                     'the boundary layouts); non-trivial = at least three mallocs and one free; distinct by canonical JSON',
                 op_histogram=dict(malloc=hist.get('m', 0), free=hist.get('f', 0), deferred_free=hist.get('d', 0),
-                                  malloc_with_gc_free=hist.get('g', 0)),
+                                  malloc_with_gc_free=hist.get('g', 0), malloc_with_nested_free=hist.get('M', 0),
+                                  free_with_nested_free=hist.get('F', 0)),
+                nested_free_points=nested,
+                nested_free_distinct_lines=dict(in_malloc=len([1 for k in lines if k[0] == 'M']),
+                                                in_free=len([1 for k in lines if k[0] == 'F'])),
                 history_length_histogram=lens,
                 multi_arena_cases=sum(1 for o in outs if len(o['snap']['arenas']) >= 2),
                 cases_ending_in_exception=sum(1 for o in outs if o['obs'] and o['obs'][-1][0]))
@@ -461,17 +631,21 @@ def threads_scenario(res, n):
 def run(res):
     res.proof_step('Props/C14.v', extra_targets=['Model/Heap.vo'], kernels_needed=['K_heap', 'G_heap'])
     if res.tier == 'quick':
-        n, lc, lo = 260, 2, 400
+        n, lc, lo, nn = 260, 2, 400, 200
     else:
-        n, lc, lo = 6000, 30, 2000
+        n, lc, lo, nn = 6000, 30, 2000, 4000
     if res.broken:
         n = max(n, 3000)      # failing-input search
-    correspond(res, n, lc, lo)
+        nn = max(nn, 1500)
+    correspond(res, n, lc, lo, nn)
     if res.tier != 'quick':
         real_arena(res, 300)
         threads_scenario(res, 6)
     res.assumptions += [
         'the heap lock serialises malloc/free; a free that finds it taken only appends to the pending list (FreeDeferred)',
+        'threading.Lock (the kind of lock extracted from Heap.__init__) cannot be acquired again by the thread that '
+        'holds it; finalisers run by the garbage collector run in the thread that triggered the collection, between '
+        'two lines of heap.py (sys.settrace line granularity in the driver; the model has seven points)',
         'list.append / list.pop on the pending list are atomic under the GIL',
         'mmap.PAGESIZE is a power of two >= 8',
         'bisect.bisect_left/insort (C implementation) behave as specified on sorted lists',
